@@ -165,7 +165,11 @@ C06c(pre, e) ==
         /\ ReturnsNewData(e.out.code) =>
               \A i \in b : \A j \in Indices(e.out.data.trace) :
                   e.out.data.trace[j].k = "exec" => e.out.data.trace[j].v # e.res[i].v
-C06(pre, post, e) == C06a(pre, e) /\ C06b(pre, post, e) /\ C06c(pre, e)
+\* results handed in only for requests that really are pending are all applied: none of them is reported as
+\* unprocessed (the peer must not have forgotten its own pending mark)
+C06d(pre, e) ==
+    (~Died(e) /\ BogusResults(pre, e) = {} /\ RealResults(pre, e) # {}) => e.out.code # 30000
+C06(pre, post, e) == C06a(pre, e) /\ C06b(pre, post, e) /\ C06c(pre, e) /\ C06d(pre, e)
 
 (***************************************************************************)
 (* C07  re-delivering already merged data changes nothing                  *)
